@@ -12,6 +12,7 @@ EXPLANATION = (
     "add loop runs to exhaustion, stores checked(old+n) into the same cell it read on every iteration, folds with min (first row "
     "seeds), returns checked(min + n). R02-checked-only: every arithmetic operation on the counter type in the module is "
     "CheckedAdd::checked_add followed by unwrap (no +, wrapping, saturating). R02-merge: see C06 (cell-wise +, guards on d, w, hasher)."
+    ' R02-return-min additionally requires that the un-folded alternative (seeding the minimum with the cell itself) sits under the fact `row == 0`. R02-is-empty: is_empty is `every cell is zero` over the whole table. R02-merge: every returning path of merge performs the cell-wise addition.'
 )
 NOT_DECIDED = "the numeric bounds themselves (they follow from the decided premises plus monotonicity of + on unsigned counters)"
 ASSUMPTIONS = ["HashIter yields exactly k values in [0,m) (R01-hashiter-range, C01)", "Ord::min on counters is the minimum"]
